@@ -203,6 +203,7 @@ def run(ctx, rep):
     wal_rules.r02e(ctx, rep, ['TxWal'])
     wal_rules.r02f(ctx, rep, ['TxWal'])
     wal_rules.r02g(ctx, rep, ['TxWal'])
+    wal_rules.r02h(ctx, rep, ['TxWal'])
     c03.r03c(ctx, rep, cr)
     c03.r03d(ctx, rep, cr)
     c03.r03e(ctx, rep, cr)
